@@ -345,6 +345,9 @@ structure LinkSt where
   pst : PState := {}
   halted : Option PErr := none
   emitted : List (Tag × Emit) := []    -- (tag of the source block, unit) in emission order
+  cpos : Nat := 0                -- blocks consumed when the last unit was committed: what the commit
+                                 -- records persist (end offset of the last committed unit), where a
+                                 -- restarted syncer resumes
 
 structure World where
   a : SiteSt := {}
@@ -396,6 +399,7 @@ inductive Ev where
   | snapshot (src : SiteId) (cmds : List Cmd) (arg : CommitArg)  -- … commits one snapshot unit
   | book (src : SiteId) (b : Bookkeeping)                   -- … writes one bookkeeping command
   | toolRaw (src : SiteId) (isTxn : Bool) (cmds : List Cmd) -- … writes something outside the vocabulary (never, in a good run)
+  | restart (src : SiteId) (p : Nat)                        -- the syncer of the link from `src` restarts / reconnects and resumes at block `p`
 
 /-- run `cmds` at site `s` as one execution and append what it propagates -/
 def execAt (cfg : WCfg) (w : World) (s : SiteId) (isTxn : Bool) (cmds : List Cmd) (tag : Tag) : World :=
@@ -414,6 +418,10 @@ def tagId : Tag → Nat
 def tagIds (start : Nat) : List Block → List TBlock
   | [] => []
   | b :: bs => ⟨.foreign start, b⟩ :: tagIds (start + 1) bs
+
+/-- encoded length of a block, and the byte offset of block `p` of a stream -/
+def blockLen (b : Block) : Nat := (b.cmds.map respLen).sum
+def streamOff (s : List TBlock) (p : Nat) : Nat := ((s.take p).map (fun tb => blockLen tb.block)).sum
 
 def stepWorld (cfg : WCfg) (w : World) : Ev → World
   | .client s isTxn cmds =>
@@ -448,7 +456,7 @@ def stepWorld (cfg : WCfg) (w : World) : Ev → World
           match ems with
           | [] => w.setLink src l'
           | em :: _ =>
-            let l'' : LinkSt := { l' with emitted := l'.emitted ++ [(tb.tag, em)] }
+            let l'' : LinkSt := { l' with emitted := l'.emitted ++ [(tb.tag, em)], cpos := l.pos + 1 }
             let w1 := w.setLink src l''
             let txn := commitCmds l.cp arg.kind em.unit ⟨arg.markerValue, arg.recordFields, em.seq⟩
             let w2 := execAt cfg w1 src.other true txn (.tool (tagId tb.tag))
@@ -464,6 +472,14 @@ def stepWorld (cfg : WCfg) (w : World) : Ev → World
     execAt cfg w src.other false [bk.toCmd] .book
   | .toolRaw src isTxn cmds =>
     execAt cfg w src.other isTxn cmds .book
+  | .restart src p =>
+    -- a restarted (or reconnected) syncer resumes behind the last unit it committed — anywhere from
+    -- there up to where it had read — with a fresh parser (unit numbering continues from the
+    -- records) and its stop, if any, forgotten
+    let l := w.link src
+    if l.cpos ≤ p ∧ p ≤ l.pos then
+      w.setLink src { l with pos := p, pst := { seq := l.pst.seq, prevOff := streamOff (w.site src).stream p }, halted := none }
+    else w
 
 def runWorld (cfg : WCfg) : World → List Ev → World
   | w, [] => w
